@@ -57,6 +57,10 @@ def step(I, gen, how, arg=None):
     if c == 0:
         v = I.st.fresh_ref('Yielded')
         I.assume(z3.And(v.t != I.local('task').t, v.t != I.local('parent').t))
+        # framework objects (CallValue, generators, ExceptionWrapper, Sleep) define neither __bool__ nor __len__: always truthy;
+        # any other yielded object may be falsy without being None (0, '', (), False)
+        tr = core.fn('py_truthy_obj', core.RefSort(), z3.BoolSort())(v.t)
+        I.assume(z3.Implies(z3.Or(*[isinst(k, v.t) for k in KINDS]), tr))
         g.setdefault('ROLES', {})['y%d' % len(log(I, 'STEPS'))] = v.t
         g['LAST_YIELD'] = v
         return v
@@ -224,6 +228,19 @@ def pt_post(prop):
             else:
                 I.oblige('no_stop_otherwise', z3.BoolVal(len(stops) == 0))
             return
+        if prop in ('C04', 'C06') and len(steps) == 2 and steps[0][2] == 0 and steps[1][1] == 'send' and steps[1][2] == 0 and not exitstep \
+                and 'EXC_INFO' not in g:
+            # the callee's result was handed to the suspended caller, which went on and yielded y2 in the same step: from the
+            # property, "the caller's own event then completes as if the handler had run synchronously (value set ...)"
+            y2 = g['LAST_YIELD']
+            nested = isinst('GeneratorType', y2.t)
+            if setv:
+                cover(I, 'resumed_yield_value')
+                I.oblige('value_yielded_by_the_resumed_caller_recorded_once', z3.And(z3.BoolVal(len(setv) == 1), setv[0][0].t == val.t, setv[0][1].t == y2.t))
+                I.oblige('nested_wait_is_not_a_result', z3.Not(nested))
+            else:
+                I.oblige('value_yielded_by_the_resumed_caller_not_dropped', nested,
+                         detail='every value other than None that the resumed caller yields is a result of its event, also a falsy one (0, \'\', False)')
         if prop == 'C04':
             errored = 'EXC_INFO' in g
             if first and first[2] == 0 and len(steps) == 1 and not exitstep and not errored:
@@ -302,7 +319,7 @@ def pt_spec(prop, clause, cover_, step_hook=None, replay=None):
         return a
     return FucSpec(
         prop, FILE, 'Manager.processTask', setup, pt_post(prop), name='Manager.processTask', fields=T_FIELDS, field_alias=T_ALIAS,
-        calls=PT_CALLS, classes=EVENT_CLASSES | set(KINDS), cover=cover_, clause=clause, replay=replay,
+        calls=PT_CALLS, classes=EVENT_CLASSES | set(KINDS), cover=cover_, clause=clause, replay=replay, falsy_classes={'Yielded'},
         attr_hooks={'event.channels': lambda I: VTuple([I.st.ghost['CHAN']])},
         setattr_hooks={'v_value': s_setvalue_hook, 'st_task': park_hook('task'), 'st_parent': park_hook('parent')},
     )
